@@ -43,6 +43,19 @@ META["C01"] = {
     "level_note": "trusts testing/synctest and the recording tracer; preemption only at scheduling points",
 }
 
+META["C14"] = {
+    "budget": {"quick": 25, "thorough": 600},
+    "rule": "one run = generated schema + handler plan + 1..4 caller tasks (queued, prepended auto/exception/check/eval mutations, canceled ones) with 1..3 recording tracers bound through Opts.Tracers and optionally one bound later through TracerBind at a scheduled step; non-trivial = at least one context switch; distinct = distinct event-log hashes",
+    "components": {"real": MACHINE_REAL, "stub": []},
+    "assumptions": [
+        "no handler faults in this family (time equalities are stated for fault-free transitions)",
+        "the late-bound tracer is exempt from the 'every transition' clause before its binding step",
+    ],
+    "probes": ["late-bind"],
+    "level_text": "seeded search over histories and caller interleavings; each tracer's stream is checked for Init/Start/[Finals]/End exactly once and never interleaved, time-after == machine time inside TransitionEnd, time-before chaining, canceled == unchanged, final time, OnChange agreement, one finished transition per queued mutation, identical streams for all tracers",
+    "level_note": "trusts testing/synctest; tracer callbacks only read (Time) and record",
+}
+
 NOT_YET = "check not built yet in this session (planned, see DESIGN.md section 5)"
 NOT_APPLICABLE = {
     "C19": "no schedule, clock, fault or multi-party behaviour: a static well-formedness scan of schema literals plus an exhaustive breadth-first enumeration of reachable active sets, i.e. bounded model checking, not deterministic simulation (DESIGN.md section 6)",
